@@ -174,4 +174,6 @@ def run(chk, tier):
     t = H.show(hpt["body"], 9)
     ok = "tag.parse().ok().or_else(" in t and "self.by_name(tag).map(" in t and ".tag()" in t
     chk.expect(ok, "print-parse", "DataDictionary::parse_tag", "keyword-resolution", "tag.parse().ok().or_else(|| self.by_name(tag).map(|e| e.tag()))", t[:160], loc=C.fn_loc(hpt))
+    from . import shared
+    shared.keyword_lookup(chk, fx, "keyword-lookup")
     chk.undecided.append("round trip over all tags/selectors; rejection of every other string (the hex-digit and delimiter checks are structural necessary conditions)")
